@@ -5,7 +5,7 @@
    Gen_C11.src_calls from the two calls of check_fit_ranges in ModelFittingDataTree.__init__
    (pyxel/calibration/fitting_datatree.py): which sizes are passed as rows / cols / readout_times. *)
 From Coq Require Import ZArith QArith List Bool.
-From PyxelV Require Import Model.Fitness Proofs.FitnessChecker Proofs.FitnessSum.
+From PyxelV Require Import Model.Fitness Proofs.FitnessChecker Proofs.FitnessSum Proofs.FitnessMeets.
 From PyxelGen Require Import Gen_C11.
 Import ListNotations.
 
@@ -223,6 +223,81 @@ Example C11_fitness_is_sum_nonvacuous :
   fobs_agree true (model_fit src_checker src_calls src_weights c sims) (OVal (30 # 1)) = true /\
   spec_fit c sims = Some (OVal (30 # 1)).
 Proof. vm_compute. auto. Qed.
+
+(* ------------------------------------------------------------------ the model meets the specification *)
+
+(* The specification used to judge the implementation (spec_fit: refuse exactly the configurations
+   whose ranges exceed the target or select regions of different extent; otherwise the declared figure
+   of merit) against the model of the problem object as coded (constructor check on the sizes the call
+   sites pass, slicing, weights, accumulation loop).  Full statement: *)
+Definition C11_model_meets_spec_full : Prop := forall c sims e,
+  fc_bypass c = false -> spec_fit c sims = Some e ->
+  model_fit src_checker src_calls src_weights c sims = e.
+
+(* refuted by the open findings.  Witnesses: (F6d) detector 2 x 2, target file 2 x 4, ranges rows 0..2 /
+   cols 0..3: has to be refused, is constructed (the result range is never compared with the frame);
+   (F6e) readout with 2 steps, target file with 1 step, 2-D target range: constructed;
+   (zip) one processor, two targets: the second target is ignored *)
+Definition ex_f6d : fconf :=
+  {| fc_ff := FAbs; fc_multi := false;
+     fc_trng := FR2 (Some 0, Some 2)%Z (Some 0, Some 3)%Z;
+     fc_orng := FR3 (None, None) (Some 0, Some 2)%Z (Some 0, Some 3)%Z;
+     fc_drows := 2%Z; fc_dcols := 2%Z; fc_w := WNone;
+     fc_tgts := [ [ [[Some 1; Some 2; Some 3; Some 4]; [Some 5; Some 6; Some 7; Some 8]] ] ]%Q; fc_bypass := false |}.
+Definition ex_f6d_sims : list frame3 := [ [ [[Some 1; Some 1]; [Some 1; Some 1]] ] ]%Q.
+Definition ex_f6e : fconf :=
+  {| fc_ff := FAbs; fc_multi := true;
+     fc_trng := FR2 (Some 0, Some 1)%Z (Some 0, Some 1)%Z;
+     fc_orng := FR3 (Some 0, Some 2)%Z (Some 0, Some 1)%Z (Some 0, Some 1)%Z;
+     fc_drows := 1%Z; fc_dcols := 1%Z; fc_w := WNone;
+     fc_tgts := [ [ [[Some 5]] ] ]%Q; fc_bypass := false |}.
+Definition ex_f6e_sims : list frame3 := [ [ [[Some 1]]; [[Some 2]] ] ]%Q.
+Definition ex_zip : fconf :=
+  {| fc_ff := FAbs; fc_multi := false;
+     fc_trng := FR2 (Some 0, Some 1)%Z (Some 0, Some 1)%Z;
+     fc_orng := FR3 (None, None) (Some 0, Some 1)%Z (Some 0, Some 1)%Z;
+     fc_drows := 1%Z; fc_dcols := 1%Z; fc_w := WNone;
+     fc_tgts := [ [ [[Some 5]] ]; [ [[Some 9]] ] ]%Q; fc_bypass := false |}.
+Definition ex_zip_sims : list frame3 := [ [ [[Some 1]] ] ]%Q.
+
+Theorem C11_model_meets_spec_refuted :
+  ~ C11_model_meets_spec_full /\
+  (spec_fit ex_f6d ex_f6d_sims = Some OCtor /\ model_fit src_checker src_calls src_weights ex_f6d ex_f6d_sims = OUndef) /\
+  (spec_fit ex_f6e ex_f6e_sims = Some OCtor /\ model_fit src_checker src_calls src_weights ex_f6e ex_f6e_sims = OUndef) /\
+  (spec_fit ex_zip ex_zip_sims = Some (OVal (12 # 1)) /\
+   fobs_agree true (model_fit src_checker src_calls src_weights ex_zip ex_zip_sims) (OVal (4 # 1)) = true).
+Proof.
+  split; [|vm_compute; auto 10].
+  intro H. specialize (H ex_f6d ex_f6d_sims OCtor eq_refl). vm_compute in H. specialize (H eq_refl). discriminate.
+Qed.
+Print Assumptions C11_model_meets_spec_refuted.
+
+(* strongest true restriction = outside the input classes of those three findings: no target without
+   a processor (zip), the result range lies inside the simulated frame and an open result stop means
+   the same size as the target's (F6d), with a 2-D target range the result selects as many readout
+   times as the target has (F6e).  Then, for every configuration the specification judges
+   (2-D and 3-D target ranges, single- and multi-readout targets, all three functions, no / scalar /
+   file weights, targets smaller or larger than the frame): refused exactly when it has to be, and
+   otherwise problem.fitness is the declared figure of merit. *)
+Theorem C11_model_meets_spec_partial : forall c sims e,
+  fc_bypass c = false ->
+  (length (fc_tgts c) <= length sims)%nat ->
+  frame_covers c sims = true -> time_2d_ok c sims = true ->
+  spec_fit c sims = Some e ->
+  model_fit src_checker src_calls src_weights c sims = e.
+Proof.
+  rewrite C11_src_checker_is_coded, C11_src_calls_are_coded, C11_src_weights_are_coded. exact model_meets_spec.
+Qed.
+Print Assumptions C11_model_meets_spec_partial.
+
+(* non-vacuity: an accepted and a refused configuration meet all hypotheses (2 x 3 target on a 4 x 3
+   detector; 3-D target range shifted in time) *)
+Example C11_model_meets_spec_nonvacuous :
+  frame_covers (ex_small 0 2) ex_small_sims = true /\ time_2d_ok (ex_small 0 2) ex_small_sims = true /\
+  spec_fit (ex_small 0 2) ex_small_sims = Some (OVal (15 # 1)) /\
+  frame_covers (ex_small 1 3) ex_small_sims = true /\ time_2d_ok (ex_small 1 3) ex_small_sims = true /\
+  spec_fit (ex_small 1 3) ex_small_sims = Some OCtor.
+Proof. vm_compute. repeat split; reflexivity. Qed.
 
 (* ------------------------------------------------------------------ champions *)
 
